@@ -187,6 +187,16 @@ var c09Probes = []struct {
 		{Type: "SVG", Norm: "<svg><svg></svg></svg>", Text: "svg"}, {Type: "Text", Norm: "x", Text: "x"}}},
 	{"svg-text-lone-doublequote", "", "<svg><text>say \"hi</text></svg>x", []gen.XTok{
 		{Type: "SVG", Norm: "<svg><text>say \"hi</text></svg>", Text: "svg"}, {Type: "Text", Norm: "x", Text: "x"}}},
+	{"svg-self-closed", "", "<svg/><p>y</p>", []gen.XTok{
+		{Type: "SVG", Norm: "<svg/>", Text: "svg"}, {Type: "StartTag", Norm: "<p", Text: "p"}, {Type: "StartTagClose", Norm: ">"},
+		{Type: "Text", Norm: "y", Text: "y"}, {Type: "EndTag", Norm: "</p>", Text: "p"}}},
+	{"template-in-comment", "go", "<!-- {{.X}} -->a", []gen.XTok{
+		{Type: "Comment", Norm: "<!-- {{.X}} -->", Text: " {{.X}} ", Tmpl: true}, {Type: "Text", Norm: "a", Text: "a"}}},
+	{"template-inside-unquoted-value", "go", "<p class=a{{ .B }}>", []gen.XTok{
+		{Type: "StartTag", Norm: "<p", Text: "p"}, {Type: "Attribute", Norm: " class=a{{ .B }}", Text: "class", AttrVal: "a{{ .B }}", HasVal: true, Tmpl: true}, {Type: "StartTagClose", Norm: ">"}}},
+	{"template-in-script-escaped-comment", "go", "<script><!-- {{ \"</script>\" }} --></script>x", []gen.XTok{
+		{Type: "StartTag", Norm: "<script", Text: "script"}, {Type: "StartTagClose", Norm: ">"},
+		{Type: "Text", Norm: "<!-- {{ \"</script>\" }} -->", Text: "<!-- {{ \"</script>\" }} -->", Tmpl: true}, {Type: "EndTag", Norm: "</script>", Text: "script"}, {Type: "Text", Norm: "x", Text: "x"}}},
 }
 
 func c09Probe(t *fw.T) {
